@@ -4,12 +4,19 @@
   Termination is Lean's own acceptance of the model's definitions (structural recursion, or an
   explicit fuel whose exhaustion is a distinct outcome). What is proved here: decoding an in-memory
   buffer never returns an error; the integer facts behind the `unsafe` blocks and the node-count
-  bound; where the finaliser and the encoder can fail at all (only inside the curve / slider-event
-  code: `CErr.panic` or `CErr.fuel`).
+  bound; the curve computation, the finaliser and `From<…State>` never reach `CErr.panic` (index safety,
+  Lemmas/CurveTotal.lean) — `decode_total_modulo_fuel`; the encoder panics only through the `f64::clamp`
+  assertion of `SliderEventsIter::new` (Lemmas/EncodeTotal.lean) — `encode_no_panic_of_nonneg_dist`;
+  the structural fuel bound of the Bezier flattening. Not proved: fuel sufficiency in IEEE, and
+  non-negativity of decoded slider distances (`decoded_dist_nonneg_statement`).
 -/
 import RosuModel.Model.Encode
 import RosuModel.Props.C09
 import RosuModel.Props.C14
+import RosuModel.Props.C16
+import RosuModel.Props.C19
+import RosuModel.Lemmas.CurveTotal
+import RosuModel.Lemmas.EncodeTotal
 namespace Rosu.C01
 open Rosu
 
@@ -73,5 +80,541 @@ theorem finalize_total_without_sliders (mode : GameMode) (sm : F) (cp : ControlP
     obtain ⟨x', hx'⟩ := hx
     obtain ⟨r, hr⟩ := ih bufs (fun h hh s => hno h (by simp [hh]) s)
     exact ⟨x' :: r, by simp [finalizeObjects, hx', hr, bind, Except.bind, pure, Except.pure]⟩
+
+/-! ### the curve computation cannot panic
+
+`Safe Q r` (Lemmas/CurveTotal.lean): `r` is `.ok a` with `Q a`, or `.error .fuel` — never `.error .panic`.
+Everything below holds for every arithmetic (`Scalar`/`Cvt`/`Trig` instances without any law, hence for the
+IEEE instance), every mode, control-point list, requested length and fuel. The only hypothesis is that the four
+Bezier scratch vectors have equal lengths (`BezierBuffers.WF`), which is true of `CurveBuffers::default()` and
+preserved by every computation. -/
+
+section Curve
+open Rosu.Curve
+
+/-- **`calculate_path` never panics**: `points[i]`, `vertices[start..=i]`, `points[start]`, the empty-slice
+`unreachable`, `points.len() - 1` / `points[0]` in the Catmull code, `sub_points - 1` in the arc code, every
+index / slice / `copy_from_slice` of the Bezier flattening, and `path[path_len - 1]` of the joint
+de-duplication are all in range. The outcome is a value or fuel exhaustion. -/
+theorem calculatePath_no_panic (fuel : Nat) (mode : GameMode) (points : List (PathControlPoint P))
+    (bufs : CurveBuffers P F) (hw : bufs.bezier.WF) :
+    calculatePath fuel mode points bufs ≠ .error .panic :=
+  (calculatePath_safe fuel mode points bufs hw).no_panic
+
+/-- the same as a disjunction, with the well-formedness of the buffers left behind. -/
+theorem calculatePath_ok_or_fuel (fuel : Nat) (mode : GameMode) (points : List (PathControlPoint P))
+    (bufs : CurveBuffers P F) (hw : bufs.bezier.WF) :
+    (∃ r, calculatePath fuel mode points bufs = .ok r ∧ r.1.bezier.WF) ∨
+      calculatePath fuel mode points bufs = .error .fuel :=
+  (calculatePath_safe fuel mode points bufs hw).cases
+
+theorem compute_safe (fuel : Nat) (mode : GameMode) (points : List (PathControlPoint P)) (e : Option F)
+    (bufs : CurveBuffers P F) (hw : bufs.bezier.WF) :
+    Safe (fun b => b.bezier.WF) (compute fuel mode points e bufs) := by
+  unfold compute
+  refine Safe.bind (calculatePath_safe fuel mode points bufs hw) ?_
+  rintro ⟨b1, opt⟩ hb1
+  obtain ⟨r, hr⟩ := C16.calculateLength_total b1.path e opt
+  simp only [hr, Outcome.ok_bind]
+  exact hb1
+
+/-- **`calculate_path` + `calculate_length` never panic** (with C16 `calculateLength_total`). -/
+theorem compute_no_panic (fuel : Nat) (mode : GameMode) (points : List (PathControlPoint P)) (e : Option F)
+    (bufs : CurveBuffers P F) (hw : bufs.bezier.WF) : compute fuel mode points e bufs ≠ .error .panic :=
+  (compute_safe fuel mode points e bufs hw).no_panic
+
+theorem new_safe (fuel : Nat) (mode : GameMode) (points : List (PathControlPoint P)) (e : Option F)
+    (bufs : CurveBuffers P F) (hw : bufs.bezier.WF) :
+    Safe (fun r => r.2.bezier.WF) (Curve.new fuel mode points e bufs) := by
+  unfold Curve.new
+  exact Safe.bind (compute_safe fuel mode points e bufs hw) (fun b hb => hb)
+
+theorem newBorrowed_safe (fuel : Nat) (mode : GameMode) (points : List (PathControlPoint P)) (e : Option F)
+    (bufs : CurveBuffers P F) (hw : bufs.bezier.WF) :
+    Safe (fun r => r.2.bezier.WF) (Curve.newBorrowed fuel mode points e bufs) := by
+  unfold Curve.newBorrowed
+  exact Safe.bind (compute_safe fuel mode points e bufs hw) (fun b hb => hb)
+
+/-- **`Curve::new` never panics.** -/
+theorem new_no_panic (fuel : Nat) (mode : GameMode) (points : List (PathControlPoint P)) (e : Option F)
+    (bufs : CurveBuffers P F) (hw : bufs.bezier.WF) : Curve.new fuel mode points e bufs ≠ .error .panic :=
+  (new_safe fuel mode points e bufs hw).no_panic
+
+/-- **`BorrowedCurve::new` never panics.** -/
+theorem newBorrowed_no_panic (fuel : Nat) (mode : GameMode) (points : List (PathControlPoint P)) (e : Option F)
+    (bufs : CurveBuffers P F) (hw : bufs.bezier.WF) :
+    Curve.newBorrowed fuel mode points e bufs ≠ .error .panic :=
+  (newBorrowed_safe fuel mode points e bufs hw).no_panic
+
+omit [Scalar F] [Scalar P] [Cvt P F] [Trig F] [Trig P] in
+/-- `CurveBuffers::default()` is well-formed (both spellings used by the model). -/
+theorem default_wf : (({} : CurveBuffers P F)).bezier.WF := ⟨rfl, rfl, rfl⟩
+omit [Scalar F] [Scalar P] [Cvt P F] [Trig F] [Trig P] in
+theorem emptyBuffers_wf : (emptyBuffers : CurveBuffers P F).bezier.WF := ⟨rfl, rfl, rfl⟩
+
+/-- buffers reachable from `CurveBuffers::default()` by any history of successful constructor calls. -/
+inductive Reachable : CurveBuffers P F → Prop
+  | default : Reachable {}
+  | owned {fuel mode pts e b c b'} : Reachable b → Curve.new fuel mode pts e b = .ok (c, b') → Reachable b'
+  | borrowed {fuel mode pts e b c b'} : Reachable b → Curve.newBorrowed fuel mode pts e b = .ok (c, b') →
+      Reachable b'
+
+theorem Reachable.wf {b : CurveBuffers P F} (h : Reachable b) : b.bezier.WF := by
+  induction h with
+  | default => exact default_wf
+  | owned _ hn ih => exact (new_safe _ _ _ _ _ ih).elim_ok hn
+  | borrowed _ hn ih => exact (newBorrowed_safe _ _ _ _ _ ih).elim_ok hn
+
+/-- **no history of curve computations on one buffer set can panic.** -/
+theorem new_no_panic_of_reachable (fuel : Nat) (mode : GameMode) (points : List (PathControlPoint P))
+    (e : Option F) (bufs : CurveBuffers P F) (h : Reachable bufs) :
+    Curve.new fuel mode points e bufs ≠ .error .panic ∧ Curve.newBorrowed fuel mode points e bufs ≠ .error .panic :=
+  ⟨new_no_panic fuel mode points e bufs h.wf, newBorrowed_no_panic fuel mode points e bufs h.wf⟩
+
+omit [Trig F] [Trig P] in
+/-- `calculate_length` leaves at least as many lengths as path points (all five outcomes of
+C16 `calculateLength_some`). -/
+theorem calculateLength_path_le (path : List (Pos P)) (e : Option F) (opt : F) (p' : List (Pos P)) (ls : List F)
+    (h : calculateLength path e opt = .ok (p', ls)) : p'.length ≤ ls.length := by
+  have hnl : path.length ≤ (C16.natLens opt path).length := by
+    simp only [C16.natLens, List.length_cons, C16.cumLens_length]; omega
+  cases e with
+  | none => cases h; exact hnl
+  | some L =>
+    rw [C16.calculateLength_some] at h
+    split at h
+    · cases h; exact hnl
+    split at h
+    · cases h; simp only [List.length_append, List.length_cons, List.length_nil]; omega
+    split at h
+    · cases h; exact hnl
+    split at h
+    · cases h; simp only [List.length_take, List.length_cons, List.length_nil]; omega
+    · cases h
+      have hle := C16.lastValid_le (C16.natLens opt path).dropLast L
+      have : C16.cutIdx opt path L ≤ (C16.natLens opt path).dropLast.length := hle
+      simp only [List.length_append, List.length_take, List.length_cons, List.length_nil]
+      omega
+
+/-- every constructed curve has `lengths` at least as long as `path`, so `position_at` on it never panics either
+(C19 `positionAt_total`). -/
+theorem positionAt_total_on_curve (fuel : Nat) (mode : GameMode) (points : List (PathControlPoint P))
+    (e : Option F) (bufs bufs' : CurveBuffers P F) (c : Curve P F)
+    (h : Curve.new fuel mode points e bufs = .ok (c, bufs')) (q : F) :
+    ∃ p, positionAt c.path c.lengths q = .ok p := by
+  obtain ⟨b1, opt, _, h2⟩ := C16.new_is_calculateLength fuel mode points e bufs bufs' c h
+  exact C19.positionAt_total c.path c.lengths q (calculateLength_path_le _ _ _ _ _ h2)
+
+/-- `SliderPath::curve_with_bufs` / `borrowed_curve` / `curve` never panic. -/
+theorem curveWithBufs_no_panic (fuel : Nat) (sp : SliderPath P F) (bufs : CurveBuffers P F) (hw : bufs.bezier.WF) :
+    sp.curveWithBufs fuel bufs ≠ .error .panic ∧ sp.borrowedCurve fuel bufs ≠ .error .panic ∧
+      sp.getCurve fuel ≠ .error .panic := by
+  have h1 : ∀ b : CurveBuffers P F, b.bezier.WF → Safe (fun _ => True) (sp.curveWithBufs fuel b) := by
+    intro b hb
+    unfold SliderPath.curveWithBufs
+    cases sp.curve with
+    | some c => exact True.intro
+    | none =>
+      simp only []
+      exact Safe.bind (new_safe fuel sp.mode sp.controlPoints sp.expectedDist b hb) (fun _ _ => True.intro)
+  refine ⟨(h1 bufs hw).no_panic, ?_, ?_⟩
+  · unfold SliderPath.borrowedCurve
+    cases sp.curve with
+    | some c => intro h; cases h
+    | none => exact newBorrowed_no_panic _ _ _ _ _ hw
+  · unfold SliderPath.getCurve
+    have : Safe (fun _ => True) (sp.curveWithBufs fuel {} >>= fun x => match x with | (c, sp, _) => pure (c, sp)) := by
+      refine Safe.bind (h1 {} default_wf) ?_
+      rintro ⟨c, sp', b⟩ _
+      exact True.intro
+    exact this.no_panic
+
+end Curve
+
+/-! ### the finaliser cannot panic -/
+
+theorem finalizeObject_safe (mode : GameMode) (sm : F) (cp : ControlPoints F) (h : HitObject F P)
+    (bufs : CurveBuffers P F) (hw : bufs.bezier.WF) :
+    Safe (fun r => r.2.bezier.WF) (finalizeObject mode sm cp h bufs) := by
+  unfold finalizeObject
+  cases h.kind with
+  | slider s =>
+    simp only []
+    refine Safe.bind (new_safe curveFuel s.path.mode s.path.controlPoints s.path.expectedDist bufs hw) ?_
+    rintro ⟨c, b⟩ hb
+    exact hb
+  | circle c => exact hw
+  | spinner c => exact hw
+  | hold c => exact hw
+
+theorem finalizeObjects_safe (mode : GameMode) (sm : F) (cp : ControlPoints F) (hs : List (HitObject F P)) :
+    ∀ (bufs : CurveBuffers P F), bufs.bezier.WF → Safe (fun _ => True) (finalizeObjects mode sm cp hs bufs) := by
+  induction hs with
+  | nil => intro _ _; exact True.intro
+  | cons x rest ih =>
+    intro bufs hw
+    unfold finalizeObjects
+    refine Safe.bind (finalizeObject_safe mode sm cp x bufs hw) ?_
+    rintro ⟨x', b'⟩ hb'
+    simp only []
+    exact Safe.bind (ih b' hb') (fun _ _ => True.intro)
+
+/-- **the finalising loop never panics**: one buffer set is threaded through all sliders of the map; it starts
+well-formed and every `Curve::new` keeps it so. -/
+theorem finalizeObjects_no_panic (mode : GameMode) (sm : F) (cp : ControlPoints F) (hs : List (HitObject F P))
+    (bufs : CurveBuffers P F) (hw : bufs.bezier.WF) : finalizeObjects mode sm cp hs bufs ≠ .error .panic :=
+  (finalizeObjects_safe mode sm cp hs bufs hw).no_panic
+
+theorem HitObjectsState.finish_safe (st : HitObjectsState F P) : Safe (fun _ => True) st.finish := by
+  unfold HitObjectsState.finish
+  simp only []
+  exact Safe.bind (finalizeObjects_safe _ _ _ _ emptyBuffers emptyBuffers_wf) (fun _ _ => True.intro)
+
+/-- **`From<HitObjectsState> for HitObjects` never panics.** -/
+theorem HitObjectsState.finish_no_panic (st : HitObjectsState F P) : st.finish ≠ .error .panic :=
+  (HitObjectsState.finish_safe st).no_panic
+
+theorem BeatmapState.finish_safe (st : BeatmapState F P) : Safe (fun _ => True) st.finish := by
+  unfold BeatmapState.finish
+  exact Safe.bind (HitObjectsState.finish_safe st.hitObjects) (fun _ _ => True.intro)
+
+/-- **`From<BeatmapState> for Beatmap` never panics.** -/
+theorem BeatmapState.finish_no_panic (st : BeatmapState F P) : st.finish ≠ .error .panic :=
+  (BeatmapState.finish_safe st).no_panic
+
+/-- **decode_total, modulo fuel**: for every byte string, decoding a `Beatmap` from an in-memory buffer reads and
+parses without error and the finaliser yields a map — or the model's fuel for one of the two arithmetic loops of
+the curve code (Bezier flattening, `theta_end` adjustment; 2·10⁶ rounds) ran out. It never panics. The same for
+the `HitObjects` decoder; the other seven decoders have no fallible finaliser (`decode_bytes_never_errs`). -/
+theorem decode_total_modulo_fuel (bs : List UInt8) :
+    ∃ st : BeatmapState F P, decodeBytes beatmapDecoder bs = .ok st ∧
+      ((∃ m, st.finish = .ok m) ∨ st.finish = .error .fuel) := by
+  obtain ⟨st, hst⟩ := decode_bytes_never_errs (beatmapDecoder (F := F) (P := P)) bs
+  refine ⟨st, hst, ?_⟩
+  rcases (BeatmapState.finish_safe st).cases with ⟨m, hm, _⟩ | hf
+  · exact Or.inl ⟨m, hm⟩
+  · exact Or.inr hf
+
+theorem decode_hitobjects_total_modulo_fuel (bs : List UInt8) :
+    ∃ st : HitObjectsState F P, decodeBytes hitObjectsDecoder bs = .ok st ∧
+      ((∃ m, st.finish = .ok m) ∨ st.finish = .error .fuel) := by
+  obtain ⟨st, hst⟩ := decode_bytes_never_errs (hitObjectsDecoder (F := F) (P := P)) bs
+  refine ⟨st, hst, ?_⟩
+  rcases (HitObjectsState.finish_safe st).cases with ⟨m, hm, _⟩ | hf
+  · exact Or.inl ⟨m, hm⟩
+  · exact Or.inr hf
+
+
+/-! ### the encoder
+
+`Encode.encode` can fail through `Curve::new` (never a panic, above) and through the slider-event iterator:
+`SliderEventsIter::new` evaluates `tick_dist.clamp(0.0, len)` with `len = min(100000, dist)`, and `f64::clamp`
+asserts `min <= max` (`Lemmas/EncodeTotal.lean`: `runUse_panicked_iff`). -/
+
+section Encoder
+open Rosu.Encode
+
+theorem curveDist_safe (s : HitObjectSlider F P) : Safe (fun _ => True) (curveDist s) := by
+  unfold curveDist
+  refine Safe.bind (new_safe curveFuel s.path.mode s.path.controlPoints s.path.expectedDist emptyBuffers
+    emptyBuffers_wf) ?_
+  rintro ⟨c, b⟩ _
+  exact True.intro
+
+theorem addPathData_safe (s : HitObjectSlider F P) (pos : Pos P) (mode : GameMode) :
+    Safe (fun _ => True) (addPathData s pos mode) := by
+  unfold addPathData
+  simp only []
+  split
+  · exact True.intro
+  · refine Safe.bind (curveDist_safe s) ?_
+    intro _ _
+    exact True.intro
+
+theorem encodeObject_safe (mode : GameMode) (h : HitObject F P) : Safe (fun _ => True) (encodeObject mode h) := by
+  unfold encodeObject
+  cases h.kind with
+  | circle c => exact True.intro
+  | spinner c => exact True.intro
+  | hold c => exact True.intro
+  | slider s =>
+    refine Safe.bind (addPathData_safe s _ mode) ?_
+    intro _ _
+    exact True.intro
+
+theorem encodeObjects_safe (mode : GameMode) (hs : List (HitObject F P)) :
+    Safe (fun _ => True) (encodeObjects mode hs) := by
+  induction hs with
+  | nil => exact True.intro
+  | cons x rest ih =>
+    unfold encodeObjects
+    refine Safe.bind (encodeObject_safe mode x) ?_
+    intro a _
+    exact Safe.bind ih (fun _ _ => True.intro)
+
+/-- **the `[HitObjects]` part of the encoder never panics**, for any map (`add_path_data` computes a curve only
+for a slider without expected distance, on fresh buffers). -/
+theorem encodeHitObjects_no_panic (m : Beatmap F P) : encodeHitObjects m ≠ .error .panic := by
+  have : Safe (fun _ => True) (encodeHitObjects m) := by
+    unfold encodeHitObjects
+    exact Safe.bind (encodeObjects_safe _ _) (fun _ _ => True.intro)
+  exact this.no_panic
+
+/-- the `clamp` assertion holds for the natural distance of every slider of the object list: whenever the curve
+of a slider is computed (no fuel exhaustion) its distance `d` satisfies `0 <= min(100000, d)`. -/
+def DistOk (hs : List (HitObject F P)) : Prop :=
+  ∀ h ∈ hs, ∀ s, h.kind = .slider s → ∀ d : F, curveDist s = .ok d →
+    Scalar.le (0 : F) (Scalar.min (100000 : F) d) = true
+
+theorem collectObject_safe (m : Beatmap F P) (h : HitObject F P) (buf : List (SliderEvents.SliderEvent F))
+    (hd : ∀ s, h.kind = .slider s → ∀ d : F, curveDist s = .ok d →
+      Scalar.le (0 : F) (Scalar.min (100000 : F) d) = true) :
+    Safe (fun _ => True) (collectObject m h buf) := by
+  unfold collectObject
+  cases hk : h.kind with
+  | circle c => exact True.intro
+  | spinner c => exact True.intro
+  | hold c => exact True.intro
+  | slider s =>
+    simp only []
+    refine Safe.bind' (curveDist_safe s) ?_
+    intro d hdist _
+    have hle := hd s hk d hdist
+    cases m.general.mode with
+    | taiko => exact True.intro
+    | mania => exact True.intro
+    | osu =>
+      simp only []
+      have : Safe (fun _ => True) (osuSliderSamples m h s d
+          ((Scalar.ofInt (s.repeatCount + 1) : F) * d / s.velocity) buf) := by
+        unfold osuSliderSamples
+        simp only []
+        refine Safe.bind (sliderEventList_safe _ _ _ d _ _ buf hle) ?_
+        rintro ⟨evs, b⟩ _
+        exact True.intro
+      refine Safe.bind this ?_
+      rintro ⟨pts, b⟩ _
+      exact True.intro
+    | «catch» =>
+      simp only []
+      have : Safe (fun _ => True) (catchSliderSamples m h s d
+          ((Scalar.ofInt (s.repeatCount + 1) : F) * d / s.velocity) buf) := by
+        unfold catchSliderSamples
+        simp only []
+        refine Safe.bind (sliderEventList_safe _ _ _ d _ _ buf hle) ?_
+        rintro ⟨evs, b⟩ _
+        exact True.intro
+      refine Safe.bind this ?_
+      rintro ⟨pts, b⟩ _
+      exact True.intro
+
+theorem collectAll_safe (m : Beatmap F P) (hs : List (HitObject F P)) (hd : DistOk hs) :
+    ∀ buf, Safe (fun _ => True) (collectAll m hs buf) := by
+  induction hs with
+  | nil => intro _; exact True.intro
+  | cons x rest ih =>
+    intro buf
+    unfold collectAll
+    refine Safe.bind (collectObject_safe m x buf (fun s hk d hc => hd x (by simp) s hk d hc)) ?_
+    rintro ⟨a, b⟩ _
+    simp only []
+    exact Safe.bind (ih (fun h hh => hd h (by simp [hh])) b) (fun _ _ => True.intro)
+
+theorem encode_safe_of_nonneg_dist (m : Beatmap F P) (hd : DistOk m.hitObjects) :
+    Safe (fun _ => True) (encode m) := by
+  unfold encode
+  have ht : Safe (fun _ => True) (encodeTimingPoints m) := by
+    unfold encodeTimingPoints
+    have hc : Safe (fun _ => True) (collectSamples m) := by
+      unfold collectSamples
+      exact Safe.bind (collectAll_safe m m.hitObjects hd []) (fun _ _ => True.intro)
+    exact Safe.bind hc (fun _ _ => True.intro)
+  refine Safe.bind ht ?_
+  intro t _
+  exact Safe.bind (Safe.of_no_panic (encodeHitObjects_no_panic m)) (fun _ _ => True.intro)
+
+/-- **`Beatmap::encode` never panics when the `clamp` assertion of the slider-event iterator holds**: if for every
+slider of the map the curve distance `d` satisfies `0 <= min(100000, d)`, then the encoder yields the text or runs
+out of model fuel (curve loops, tick loop) — it does not panic. Any map: decoded or hand-built. -/
+theorem encode_no_panic_of_nonneg_dist (m : Beatmap F P) (hd : DistOk m.hitObjects) :
+    encode m ≠ .error .panic :=
+  (encode_safe_of_nonneg_dist m hd).no_panic
+
+/-- maps without sliders: the encoder always succeeds with a text. -/
+theorem encode_no_panic_without_sliders (m : Beatmap F P) (hno : ∀ h ∈ m.hitObjects, ∀ s, h.kind ≠ .slider s) :
+    encode m ≠ .error .panic :=
+  encode_no_panic_of_nonneg_dist m (fun h hh s hk => absurd hk (hno h hh s))
+
+/-- **the hypothesis is necessary**: the per-object collection step of an osu!-mode map panics as soon as one
+computed slider distance violates the assertion (`f64::clamp`'s `assert!(min <= max)`). -/
+theorem collectObject_panics (m : Beatmap F P) (h : HitObject F P) (s : HitObjectSlider F P) (d : F)
+    (buf : List (SliderEvents.SliderEvent F)) (hm : m.general.mode = .osu) (hk : h.kind = .slider s)
+    (hdist : curveDist s = .ok d) (hbad : Scalar.le (0 : F) (Scalar.min (100000 : F) d) = false) :
+    collectObject m h buf = .error .panic := by
+  unfold collectObject
+  simp only [hk, hdist, Outcome.ok_bind, hm]
+  unfold osuSliderSamples
+  simp only []
+  rw [sliderEventList_panics _ _ _ d _ _ buf hbad]
+  rfl
+
+/-- **what remains for `encode_total` on decoded maps** (not proved): every slider of a map that was obtained by
+decoding has a curve distance `d` with `0 <= min(100000, d)`.
+
+`d` is the last cumulative length. The decoder stores `expected_dist = Some(L)` only for `L = max(parsed, 0) ≥ ε`
+(C14), so by C16 `calculateLength_some` the distance is one of: `L` itself (> 0: fine), `0.0` (fine), or the natural
+length `optimized_len + Σ |pᵢ₊₁ − pᵢ|` (near / equal-tail / no expected distance). A NaN natural length (F11, F13)
+is harmless: `f64::min(100000, NaN) = 100000` (`min_maxLen_nan`). What is needed is therefore *non-negativity of
+the natural length*: `Σ |pᵢ₊₁ − pᵢ| ≥ 0` is an order law of `+`/`sqrt`, and `optimized_len`
+(`Σ (removed − chord)` of the osu! Catmull simplification) must not outweigh it — the triangle inequality up to
+rounding. Both are arithmetic (law-dependent) facts; the control flow proved here does not give them. -/
+def decoded_dist_nonneg_statement (F P : Type) [Scalar F] [Scalar P] [Cvt P F] [Trig F] [Trig P] : Prop :=
+  ∀ (bs : List UInt8) (st : BeatmapState F P) (m : Beatmap F P),
+    decodeBytes beatmapDecoder bs = .ok st → st.finish = .ok m → DistOk m.hitObjects
+
+/-- `encode_total` modulo fuel, for decoded maps. -/
+def encode_decoded_no_panic_statement (F P : Type) [Scalar F] [Scalar P] [Cvt P F] [Trig F] [Trig P] : Prop :=
+  ∀ (bs : List UInt8) (st : BeatmapState F P) (m : Beatmap F P),
+    decodeBytes beatmapDecoder bs = .ok st → st.finish = .ok m → encode m ≠ .error .panic
+
+/-- the arithmetic statement is all that is missing. -/
+theorem encode_decoded_no_panic_of_dist_nonneg (h : decoded_dist_nonneg_statement F P) :
+    encode_decoded_no_panic_statement F P :=
+  fun bs st m h1 h2 => encode_no_panic_of_nonneg_dist m (h bs st m h1 h2)
+
+end Encoder
+
+/-! ### which distances a slider can have (structural), and what is left of the `clamp` hypothesis -/
+
+section Dist
+open Rosu.Curve Rosu.Encode
+
+omit [Trig F] [Trig P] in
+theorem dist_natLens (opt : F) (path : List (Pos P)) :
+    dist (C16.natLens opt path) = (0 : F) ∨ dist (C16.natLens opt path) = C16.natTotal opt path := by
+  by_cases h2 : 2 ≤ path.length
+  · exact Or.inr (C16.natural_dist path opt h2)
+  · left
+    have h1 := (C16.natLens_len_eq_one opt path).mpr (by omega)
+    unfold C16.natLens at h1 ⊢
+    cases hl : (cumLens opt path).1 with
+    | nil => simp [dist]
+    | cons a t => rw [hl] at h1; simp at h1
+
+omit [Trig F] [Trig P] in
+/-- **the distance of a curve is `0.0`, the natural length, or the requested length** (the five outcomes of
+`calculate_length`, C16 `calculateLength_some`). -/
+theorem dist_cases (path : List (Pos P)) (e : Option F) (opt : F) (p' : List (Pos P)) (ls : List F)
+    (h : calculateLength path e opt = .ok (p', ls)) :
+    dist ls = (0 : F) ∨ dist ls = C16.natTotal opt path ∨ e = some (dist ls) := by
+  have hnat := dist_natLens opt path
+  have hn : dist (C16.natLens opt path) = (0 : F) ∨ dist (C16.natLens opt path) = C16.natTotal opt path ∨
+      e = some (dist (C16.natLens opt path)) := by
+    rcases hnat with h0 | h0
+    · exact Or.inl h0
+    · exact Or.inr (Or.inl h0)
+  cases e with
+  | none => cases h; exact hn
+  | some L =>
+    rw [C16.calculateLength_some] at h
+    split at h
+    · cases h; exact hn
+    split at h
+    · cases h; exact Or.inr (Or.inl (C19.dist_concat _ _))
+    split at h
+    · cases h; exact hn
+    split at h
+    · cases h; left; simp [dist]
+    · cases h; right; right; rw [C19.dist_concat]
+
+/-- the natural length of a slider's path: `calculated_len` after `calculate_path` on fresh buffers. -/
+def naturalDist (s : HitObjectSlider F P) : Outcome F := do
+  let (b, opt) ← calculatePath curveFuel s.path.mode s.path.controlPoints (emptyBuffers : CurveBuffers P F)
+  pure (C16.natTotal opt b.path)
+
+/-- a slider's distance is `0.0`, its natural length, or its stored expected distance. -/
+theorem curveDist_cases (s : HitObjectSlider F P) (d : F) (h : curveDist s = .ok d) :
+    d = (0 : F) ∨ naturalDist s = .ok d ∨ s.path.expectedDist = some d := by
+  unfold curveDist at h
+  cases hn : Curve.new curveFuel s.path.mode s.path.controlPoints s.path.expectedDist
+      (emptyBuffers : CurveBuffers P F) with
+  | error e => rw [hn] at h; cases h
+  | ok r =>
+    obtain ⟨c, b'⟩ := r
+    rw [hn] at h
+    simp only [Outcome.ok_bind, Outcome.pure_eq_ok] at h
+    cases h
+    obtain ⟨b1, opt, hp, hl⟩ := C16.new_is_calculateLength _ _ _ _ _ _ _ hn
+    rcases dist_cases _ _ _ _ _ hl with h0 | h0 | h0
+    · exact Or.inl h0
+    · right; left
+      unfold naturalDist
+      rw [hp]
+      simp only [Outcome.ok_bind, Outcome.pure_eq_ok, h0]
+    · exact Or.inr (Or.inr h0)
+
+/-- **the `clamp` hypothesis reduced to three scalar facts**: `0 <= min(100000, 0)` (any sane arithmetic),
+`0 <= min(100000, L)` for the stored expected distances (the decoder stores `max(parsed, 0) ≥ ε` only), and
+`0 <= min(100000, natural)` for the natural lengths — the one genuinely arithmetic obligation
+(non-negativity of `optimized_len + Σ |pᵢ₊₁ − pᵢ|`, or NaN). -/
+theorem distOk_of_three (hs : List (HitObject F P))
+    (hzero : Scalar.le (0 : F) (Scalar.min (100000 : F) (0 : F)) = true)
+    (hexp : ∀ h ∈ hs, ∀ s, h.kind = .slider s → ∀ L, s.path.expectedDist = some L →
+      Scalar.le (0 : F) (Scalar.min (100000 : F) L) = true)
+    (hnat : ∀ h ∈ hs, ∀ s, h.kind = .slider s → ∀ d, naturalDist s = .ok d →
+      Scalar.le (0 : F) (Scalar.min (100000 : F) d) = true) : DistOk hs := by
+  intro h hh s hk d hd
+  rcases curveDist_cases s d hd with h0 | h0 | h0
+  · rw [h0]; exact hzero
+  · exact hnat h hh s hk d h0
+  · exact hexp h hh s hk d h0
+
+end Dist
+
+/-! ### fuel (structural part) and non-vacuity -/
+
+section Examples
+open Rosu.Toy Rosu.Curve
+
+omit [Scalar F] [Cvt P F] [Trig F] [Trig P] in
+/-- **`bezier_fuel_suffices`** restated here: if every piece of the control polygon is flat enough after at most `k`
+halvings (`FlatAfter`, an arithmetic hypothesis), `approximate_bezier` with fuel `≥ 2^(k+1) − 1` returns a value on all
+well-formed buffers. (`C17.thetaLoop_fuel`: one round of the angle loop suffices when `theta_end + 2π ≥ theta_start`.) -/
+theorem bezier_fuel_suffices (fuel k : Nat) (pts : List (Pos P)) (h1 : 1 ≤ pts.length) (hk : FlatAfter k pts)
+    (hf : 2 ^ (k + 1) - 1 ≤ fuel) (b : BezierBuffers P) (hb : b.WF) :
+    ∃ r, approximateBezier fuel pts b = .ok r :=
+  Rosu.bezier_fuel_suffices fuel k pts h1 hk hf b hb
+
+/-- what is not proved: that the IEEE (or any lawful) arithmetic makes every decoded control polygon flat after a
+bounded number of halvings, so that the model fuel 2·10⁶ is never exhausted on decoded maps. -/
+def bezier_flat_after_statement (P : Type) [Scalar P] (bound : Nat) : Prop :=
+  ∀ pts : List (Pos P), 2 ≤ pts.length → ∃ k, 2 ^ (k + 1) - 1 ≤ bound ∧ FlatAfter k pts
+
+/-- the hypothesis of `bezier_fuel_suffices` is satisfiable (toy arithmetic, an evenly spaced straight polygon). -/
+example : FlatAfter 0 [pt 0 0, pt 2 2, pt 4 4] := by rfl
+example : SubdivTree [pt 0 0, pt 2 2, pt 4 4] 1 := SubdivTree.leaf (by rfl)
+
+/-- the three outcomes are all live in the model. A value on default buffers: -/
+example : (match calculatePath 10 .osu [cp 0 0 (some PathType.bezier), cp 2 2, cp 4 4]
+    ({} : CurveBuffers Int Int) with | .ok r => r.1.path | .error _ => []) = [pt 0 0, pt 0 0, pt 4 4] := by rfl
+
+/-- fuel exhaustion: -/
+example : calculatePath 0 .osu [cp 0 0 (some PathType.bezier), cp 2 2, cp 4 4] ({} : CurveBuffers Int Int) =
+    .error .fuel := by rfl
+
+/-- and the well-formedness hypothesis of `calculatePath_no_panic` cannot be dropped: on scratch vectors of unequal
+lengths (which no computation produces) the model does reach the index panic. -/
+example : calculatePath 10 .osu [cp 0 0 (some PathType.bezier), cp 2 2, cp 4 4]
+    ({ bezier := { left := [pt 0 0, pt 0 0, pt 0 0] } } : CurveBuffers Int Int) = .error .panic := by rfl
+
+/-- the hypothesis of `encode_no_panic_of_nonneg_dist` holds for a non-negative distance … -/
+example : Scalar.le (0 : Int) (Scalar.min (100000 : Int) 25) = true := by decide
+example : DistOk ([] : List (HitObject Int Int)) := fun _ h => by cases h
+
+/-- … and fails for a negative one, where the slider-event constructor panics (`f64::clamp` assertion). -/
+example : Encode.sliderEventList (F := Int) 0 1 1 (-5) 1 1 [] = .error .panic :=
+  sliderEventList_panics _ _ _ _ _ _ _ (by decide)
+
+end Examples
 
 end Rosu.C01
